@@ -105,7 +105,7 @@ def confs_named(name):
     if name == 'mm:psk-swapped':
         return base(a_over={'my_auth': {"id": "alice@openikev2", "psk": "testing2"},
                             'peer_auth': {"id": "bob@openikev2", "psk": "testing"}})
-    if name.startswith('idtype:'):
+    if name.startswith('idtype:') or name == 'psk-cookie':
         return base()
     raise HarnessError(name)
 
@@ -114,6 +114,8 @@ def post_load(w, name):
     """peers that type their identity differently from what pyikev2's own loader would derive (another implementation):
     same octets, other ID type"""
     from message import PayloadID
+    if name == 'psk-cookie':
+        w.endpoints['B'].controller.cookie_threshold = -1       # every IKE_SA_INIT request has to come back with a cookie
     if name == 'idtype:a-presents-fqdn':
         list(w.endpoints['A'].conf.ike_configurations.values())[0].my_auth.id.id_type = PayloadID.Type(2)
     elif name == 'idtype:a-presents-key-id':
@@ -124,7 +126,7 @@ def post_load(w, name):
         list(w.endpoints['B'].conf.ike_configurations.values())[0].my_auth.id.id_type = PayloadID.Type(11)
 
 
-GOOD = ['psk', 'rsa', 'psk-multi', 'psk-sha1-aes128-modp', 'psk-sha512-ecp384', 'fqdn-ids', 'ip-ids']
+GOOD = ['psk', 'psk-cookie', 'rsa', 'psk-multi', 'psk-sha1-aes128-modp', 'psk-sha512-ecp384', 'fqdn-ids', 'ip-ids']
 MISMATCH = ['mm:b-expects-other-psk', 'mm:a-expects-other-psk', 'mm:b-expects-other-id', 'mm:a-expects-other-id',
             'mm:b-expects-id-as-fqdn', 'mm:b-expects-prefix-id', 'mm:a-sends-rsa-b-expects-psk',
             'mm:a-sends-psk-b-expects-rsa', 'mm:b-has-wrong-pubkey', 'mm:a-signs-with-other-key',
@@ -641,6 +643,18 @@ def run_impostor_initiator(conf_name, guess):
     id_body = bytes([int(idp.id_type), 0, 0, 0]) + bytes(idp.id_data)
     octets = RK.signed_octets(bytes(msg1m), nr, prf_name, m_init.ike_sa_keyring.sk_pi, id_body)
     forged = PayloadAUTH(2, RK.psk_auth(prf_name, guess, octets))
+    if guess == b'skip-auth':
+        # no AUTH at all: a protected CREATE_CHILD_SA request (Message ID 1) in place of IKE_AUTH, and an INFORMATIONAL
+        from message import PayloadNONCE, Message
+        keep = [p for p in req.encrypted_payloads if int(p.type) in (F.TSi, F.TSr, F.SA, F.NOTIFY)]
+        ccsa = Message(spi_i=req.spi_i, spi_r=m_init.peer_spi, major=2, minor=0, exchange_type=36, is_response=False,
+                       can_use_higher_version=False, is_initiator=True, message_id=1, payloads=[],
+                       encrypted_payloads=keep + [PayloadNONCE(b'n' * 32)], crypto=m_init.my_crypto)
+        out3 = bytes(as_m(lambda: ccsa.to_bytes()))
+        delivered.append(('B', out3))
+        w.step(('inject', 'B', out3, A_ADDR))
+        w.net[:] = []
+        return w, delivered
     req.encrypted_payloads = [forged if int(p.type) == F.AUTH else p for p in req.encrypted_payloads]
     out3 = bytes(as_m(lambda: req.to_bytes()))
     delivered.append(('B', out3))
@@ -741,6 +755,16 @@ def plans_quick():
             cases.append((conf, {k: ('reflect',)}))
             for j in range(1, k):
                 cases.append((conf, {k: ('replay', j)}))
+    labels = discover_labels('psk-cookie', upto=6)
+    for k in range(1, 7):
+        for lab in labels[k]:
+            if lab.startswith('octet:') and (ck.quick or k != 3):
+                continue
+            cases.append(('psk-cookie', {k: ('mut', lab)}))
+        cases.append(('psk-cookie', {k: ('drop',)}))
+        cases.append(('psk-cookie', {k: ('dup',)}))
+        for j in range(1, k):
+            cases.append(('psk-cookie', {k: ('replay', j)}))
     if not ck.quick:
         for conf in ('psk-sha1-aes128-modp', 'psk-sha512-ecp384', 'fqdn-ids', 'ip-ids'):
             labels = discover_labels(conf)
@@ -766,21 +790,22 @@ def plans_quick():
 _labels = {}
 
 
-def discover_labels(conf):
+def discover_labels(conf, upto=4):
     if conf not in _labels:
         w = S.new_world(confs_named(conf))
+        post_load(w, conf)
         w.sent_log = []
         w.step(('acquire', 'A', 0, 0))
         out = {}
         k = 0
         seen = []
-        while w.net and k < 4:
+        while w.net and k < upto:
             d = w.net[0]
             k += 1
             seen.append(d)
             out[k] = [lab for lab, _ in mutations(k, d.data, conf, seen)]
             w.step(('deliver', d.id))
-        for k in (1, 2, 3, 4):
+        for k in range(1, upto + 1):
             out.setdefault(k, [])
         _labels[conf] = out
     return _labels[conf]
@@ -845,7 +870,7 @@ def main():
     cases += [('mitm', v) for v in ('own-auth-guessed-psk', 'relay-alices-id-and-auth', 'relay-alices-auth-only')]
     cases += [('mitm', 'impostor-responder:%d:%s' % (n, a)) for n in (0, 38, 14, 35) for a in ('zeros', 'reflected', 'random')]
     cases += [('mitm', 'impostor-initiator|%s|%s' % (c, g.hex())) for c in ('psk', 'rsa', 'mm:b-has-pubkey-and-psk-a-sends-psk-wrong')
-              for g in (b'', b'testing2', b'alice@openikev2', b'testing-not')]
+              for g in (b'', b'testing2', b'alice@openikev2', b'testing-not', b'skip-auth')]
     outcomes = collections.Counter()
     n_est = 0
     results = ck.pmap(work, cases)
